@@ -36,7 +36,11 @@ func init() {
 				mk("HarnessC08Prefix", 1, 3),
 				mk("HarnessC08Metric", 1, 2), mk("HarnessC08Metric", 2, 2),
 			}
+			// finding, creating, expiring or deleting one tuple with another
+			// operation let in at its lock-release points (the C09 job)
+			jobs = append(jobs, c09Interfere(1, 1, 2))
 			if tier == "thorough" {
+				jobs = append(jobs, c09Interfere(2, 1, 2))
 				jobs = append(jobs, mk("HarnessC08Key", 2, 3), mk("HarnessC08Key", 3, 2), mk("HarnessC08Key", 4, 1),
 					mk("HarnessC08Prefix", 1, 5), mk("HarnessC08Metric", 3, 1), mk("HarnessC08Metric", 2, 3))
 			}
@@ -75,6 +79,19 @@ func init() {
 	})
 }
 
+// c09Interfere: one operation with a second one let in at any point at which
+// the first releases the metric's lock.
+func c09Interfere(arity, maxlen, npre int) JobDef {
+	return JobDef{Name: fmt.Sprintf("HarnessC09Interfere-a%d-l%d-p%d", arity, maxlen, npre), Pkg: metricsPkg, Dir: "internal/metrics",
+		Harness: []string{"metrics/c08.go", "metrics/c09.go", "metrics/c09i.go"}, Entry: "HarnessC09Interfere",
+		Params: p("arity", arity, "maxlen", maxlen, "npre", npre),
+		Substs: []Subst{
+			{File: "internal/metrics/metric.go", Re: true, Old: `(?m)^(\s*)defer ((?:\w+\.)+)(R?Unlock)\(\)[ \t]*$`, New: "${1}defer func() { ${2}${3}(); verifYieldPoint() }()"},
+			{File: "internal/metrics/metric.go", Re: true, Old: `(?m)^(\s*)((?:\w+\.)+)(R?Unlock)\(\)[ \t]*$`, New: "${1}${2}${3}(); verifYieldPoint()"},
+		},
+		Bound: fmt.Sprintf("a metric of arity %d built by %d get-or-create calls (labels 0..%d arbitrary bytes, so 1..%d distinct tuples); operations A and B each any of {get-or-create, delete, expiry mark} on an arbitrary tuple; B runs to completion at a solver-chosen point among the points at which A releases the metric's lock (or after A); results and final metric compared with A;B and B;A on the association-list oracle", arity, npre, maxlen, npre)}
+}
+
 func init() {
 	register(&CheckDef{
 		ID:    "C09",
@@ -90,20 +107,20 @@ func init() {
 				pre.Name += "-preemit"
 				pre.Params["preemit"] = 1
 				pre.Bound = "a metric holding one tuple that has been enumerated once, then " + pre.Bound
-				return []JobDef{pre, mk(1, 1, 4, 0), mk(2, 1, 3, 0), mk(1, 2, 3, 0), mk(0, 1, 4, 0), mk(1, 1, 3, 1), mk(1, 1, 3, 2), mk(1, 1, 3, 3), mk(2, 2, 2, 0)}
+				return []JobDef{pre, mk(1, 1, 4, 0), mk(2, 1, 3, 0), mk(1, 2, 3, 0), mk(0, 1, 4, 0), mk(1, 1, 3, 1), mk(1, 1, 3, 2), mk(1, 1, 3, 3), mk(2, 2, 2, 0), c09Interfere(1, 1, 3), c09Interfere(2, 1, 2)}
 			}
 			pre := mk(1, 1, 2, 0)
 			pre.Name += "-preemit"
 			pre.Params["preemit"] = 1
 			pre.Bound = "a metric holding one tuple that has been enumerated once, then " + pre.Bound
-			return []JobDef{mk(1, 1, 3, 0), mk(1, 0, 4, 0), pre, mk(2, 1, 2, 0), mk(0, 1, 3, 0), mk(1, 1, 2, 3), mk(1, 1, 2, 2)}
+			return []JobDef{mk(1, 1, 3, 0), mk(1, 0, 4, 0), pre, mk(2, 1, 2, 0), mk(0, 1, 3, 0), mk(1, 1, 2, 3), mk(1, 1, 2, 2), c09Interfere(1, 1, 2)}
 		},
 		Assumptions: append([]string{
 			"the oracle is an insertion-ordered association list written in the harness and executed by the same engine on the same symbols",
 			"EmitLabelSets runs in an interpreted goroutine under the engine's deterministic scheduler (one schedule); the enumeration result does not depend on the interleaving because producer and consumer rendezvous on one unbuffered channel",
 			"pkg/errors.Errorf is modelled as an opaque error (its message, which formats the metric, is not evaluated)",
 		}, baseAssumptions...),
-		Outside: []string{"operation sequences longer than the bound", "concurrent use (C11)", "JSON marshalling of the metric"},
+		Outside: []string{"operation sequences longer than the bound", "data races (C11); of concurrent use only one interfering operation at the lock-release points of one operation is explored (HarnessC09Interfere), and RemoveOldestDatum, whose scan and removal are two critical sections by design, is not one of the operations", "JSON marshalling of the metric"},
 	})
 }
 
